@@ -542,8 +542,44 @@ def _valid(circular, hist):
 
 # ------------------------------------------------------------------ engine glue
 
+def check_add_regions(nslots, circ, specs):
+    """regions handed to the record one by one (as when a record with regions is read from a file), in every order: whatever the order,
+    either all are taken and none overlap, or the one that overlaps an earlier one is refused"""
+    from antismash.common.secmet.features import Region  # pylint: disable=import-outside-toplevel
+    L = nslots * P.SLOT
+    fails = []
+    outcomes = {}
+    for order in itertools.permutations(range(len(specs))):
+        rec, _ = P.make_slotted_record(nslots, circ, {}, with_genes=False)
+        accepted = []
+        refused = False
+        for i in order:
+            sub = P.make_subregion(L, circ, specs[i][1:])
+            if sub is None:
+                return None
+            try:
+                rec.add_region(Region([], [sub]))
+                accepted.append(i)
+            except ValueError:
+                refused = True
+                break
+            except Exception as err:  # pylint: disable=broad-except
+                return [("add-region-raised", f"order {list(order)}: {type(err).__name__}: {str(err)[:100]}")]
+        sets = [R.bases(r.location) for r in rec.get_regions()]
+        if any(sets[a] & sets[b] for a in range(len(sets)) for b in range(a + 1, len(sets))):
+            fails.append(("regions-overlap", f"order {list(order)}: {[str(r.location) for r in rec.get_regions()]}"))
+        for clause, detail in numbering_problems(rec):
+            fails.append((clause, f"order {list(order)}: {detail}"))
+        outcomes[order] = refused
+    if len(set(outcomes.values())) > 1:
+        fails.append(("overlapping-region-accepted-in-some-orders", f"refused by order: {sorted((list(o), r) for o, r in outcomes.items())}"))
+    return fails
+
+
 def shards(tier):
     out = []
+    for circ in (False, True):
+        out.append(["add-regions", 6, circ, 3])
     # "reduced" (every second protocluster of the menu, only sets of exactly k) is a quick-tier economy; the thorough tier
     # enumerates every set of <= 4 areas of the full menu (4-area sets are where a sweep can miss an overlap, see DESIGN 0.3)
     plans = [(6, False, 3, False), (6, True, 3, False), (6, True, 4, "basic"), (6, True, 4, "tight")]
@@ -586,6 +622,23 @@ def run_shard(shard):
                     for clause, detail in fails:
                         res.fail(case, clause, detail)
                     res.sample(case)
+    elif shard[0] == "add-regions":
+        _, nslots, circ, k = shard
+        menu = [a for a in area_menu(nslots, circ, False) if a[0] == "S"]
+        for size in range(2, k + 1):
+            for combo in itertools.combinations(menu, size):
+                fails = check_add_regions(nslots, circ, list(combo))
+                if fails is None:
+                    continue
+                res.evals += 1
+                res.nontrivial += 1
+                res.buckets["add-region:orders"] += 1
+                res.outcomes[("add-regions", size, tuple(sorted({c for c, _ in fails})))] += 1
+                if fails or res.evals % 1009 == 1:
+                    case = {"kind": "add-regions", "nslots": nslots, "circ": circ, "areas": list(combo)}
+                    for clause, detail in fails[:3]:
+                        res.fail(case, clause, detail)
+                    res.sample(case)
     elif shard[0] == "parents":
         from mc.props import c05  # pylint: disable=import-outside-toplevel
         _, circ, chunk, tier = shard
@@ -622,6 +675,8 @@ def finalize(cov, tier):
 
 
 def replay(case):
+    if case.get("kind") == "add-regions":
+        return check_add_regions(case["nslots"], case["circ"], case["areas"]) or []
     if case["kind"] == "parents":
         return check_parents(case["nslots"], case["circ"], case["specs"])
     if case["kind"] == "areas":
